@@ -53,7 +53,8 @@ def run_case(case, res):
     K, p, U = case
     U = list(U)
     n = len(U) - p - 1
-    prm = al.params(U, p)
+    prm0 = al.params(U, p)
+    prm = prm0
     wopts = [None, al.generic_weights(n)] + list(al.small_weight_vectors(n, 3))[1:]
     for rep in ("frac", "float"):
         exact = rep == "frac"
@@ -65,6 +66,11 @@ def run_case(case, res):
             except Exception as e:  # noqa: BLE001
                 res.violation("construct", f"Function({U}) weights={W} raised {e!r}", rep=rep)
                 continue
+            if not exact:
+                near = [lib.to_frac(float(k) + d) for k in rb.knots_of(U)[1:-1] for d in (-1e-10, 1e-10)]
+                prm = prm0 + [u for u in near if U[0] < u < U[-1]]
+            else:
+                prm = prm0
             args = [lib.conv(u, rep) for u in prm]
             for j in range(p + 1):
                 res.state((U, j, W, rep))
